@@ -96,6 +96,13 @@ package propertyf
 //@   perreturn
 //@   modifies buf.buf.bytes
 //@   ensures [C03] err == nil && buf.buf.bytes == pre
+//@   site Buffer).Write#1 assert [C03] buf.buf.bytes == e1
+//@   site Buffer).Write#2 assert [C03] buf.buf.bytes == e2
+//@   site if#3 assert [C03] buf.buf.bytes == e3
+//@   site if#5 assert [C03] buf.buf.bytes == e4
+//@   site if#7 assert [C03] buf.buf.bytes == e5
+//@   site if#9 assert [C03] buf.buf.bytes == e6
+//@   site if#11 assert [C03] buf.buf.bytes == e7
 //@   safety [C03]
 //
 //@ func (*StatPropMsgHead).WriteBlock
@@ -195,7 +202,7 @@ package propertyf
 //@   ensures [C05] readBuf.buf.i >= p0
 //@   ensures [C05] validR(readBuf)
 //@   loop 0 modifies elems(st.VInfo), readBuf.buf.i, readBuf.depth
-//@   loop 0 invariant [C05] validR(readBuf) && readBuf.buf.i >= p0 && st != nil && len(st.VInfo) == length
+//@   loop 0 invariant [C05] validR(readBuf) && readBuf.buf.i >= p0 && st != nil && len(st.VInfo) == e0
 //@   safety [C05]
 //
 //@ func (*StatPropMsgBody).ReadBlock
